@@ -92,4 +92,12 @@ NoRotationInsidePeriod(F, age, N, forced) ==
 \* a timestamp-named file carries the time at which its content was started
 TsNameIsStart(F, gran) ==
     \A j \in 1..Len(F) : (F[j].k = "ts" /\ ~F[j].z) => F[j].i = (F[j].bt \div gran) * gran
+(***************************************************************************)
+(* C18: sequences of records <<id,len>>                                     *)
+(***************************************************************************)
+Ascending(s) == \A a, b \in 1..Len(s) : a < b => s[a][1] < s[b][1]
+\* s holds exactly the records of t, each once (order free)
+SameElementsOnce(s, t) == /\ Len(s) = Len(t)
+                          /\ \A a \in 1..Len(t) : \E b \in 1..Len(s) : s[b] = t[a]
+                          /\ \A a, b \in 1..Len(s) : a # b => s[a][1] # s[b][1]
 =============================================================================
